@@ -98,18 +98,21 @@ def zsum (z1 z2 : ZWord) : ZWord :=
   z2.foldl (fun acc kv => dset acc kv.1 ((dget acc kv.1).getD 0 + kv.2))
     (z1.foldl (fun acc kv => dset acc kv.1 kv.2) [])
 
-/-- the `len(word) == 1` branch of `fox_word_derivative` -/
+/-- the `len(word) == 1` branch of (repaired) `fox_word_derivative`: `word[0] == differential`
+gives `{word[:0]: 1}`, `word[0] == invert_gen(differential)` gives `{word: -1}`.  A word is a
+Python string (one character per generator) or a tuple of generator names; both are `Word`. -/
 def foxLetter (inv : Gen → Gen) (g x : Gen) : ZWord :=
   if x = g then [([], 1)]
   else if [x] = formalInverse inv [g] then [([x], -1)]
   else []
 
-/-- `utils.words.fox_word_derivative(differential, word)`.  The empty word falls through to
-`word[0]` and raises `IndexError` (= `none`).
+/-- `utils.words.fox_word_derivative(differential, word)`.  The empty word raises `IndexError`
+(= `none`).
 ```
 if len(word) == 1: ...
-return zmod_sum(fox_word_derivative(differential, word[0]),
-                act_left(word[0], fox_word_derivative(differential, word[1:])))
+word[0]
+return zmod_sum(fox_word_derivative(differential, word[:1]),
+                act_left(word[:1], fox_word_derivative(differential, word[1:])))
 ``` -/
 def foxDeriv (inv : Gen → Gen) (g : Gen) : Word → Option ZWord
   | [] => none
